@@ -455,7 +455,7 @@ impl OutputData {
 		} else {
 			// if an output has height n and we are at block n
 			// then we have a single confirmation (the block it originated in)
-			1 + (current_height - self.height)
+			1u64.saturating_add(current_height - self.height)
 		}
 	}
 
